@@ -39,7 +39,8 @@ def bound(tier):
     return dict(operations=OPS, depth_all_seeds=2, depth_seed0="3 (third operation from the 10 randomised / stateful ones)" if tier == "quick" else 4, seeds=[0, 1, 1234, "VERIF_SEED"], kinds=["positive", "complex", "mixed"],
                 thorough_note="depth 4 over the 8 randomised/stateful operations" if tier != "quick" else "",
                 fresh_process=dict(hash_seeds=HASHSEEDS[tier], script="fit (5 distinct bases in one batch) x2, sample, System.statistics, gradient, exact gradient"),
-                repeat_on_same_inputs=["sample", "Observable.statistics", "Observable.statistics:uneven", "System.statistics", "Observable.sample", "ObservableEvaluator"])
+                repeat_on_same_inputs=["sample", "Observable.statistics", "Observable.statistics:uneven", "System.statistics", "Observable.sample", "NeighbourInteraction.statistics:periodic:c=2", "ObservableEvaluator"],
+                interludes=["7 refused calls caught by the caller", "the entry's observable objects evaluated on other models"])
 
 
 HASHSEEDS = {"quick": ["0", "1", "2"], "thorough": ["0", "1", "2", "3", "4", "12345"]}
@@ -94,15 +95,51 @@ def run_repeat(acc, kind):
                ("System.statistics", lambda st, x: O.System(O.SigmaZ(), O.SigmaX()).statistics(st, num_samples=6, burn_in=1, steps=1, initial_state=x)),
                ("Observable.sample", lambda st, x: O.SigmaX().sample(st, 2, initial_state=x)),
                ("ObservableEvaluator", None)]
+    box = {}   # ONE observable object per entry, used in all three repetitions and in the interlude between them
+    entries.insert(5, ("NeighbourInteraction.statistics:periodic:c=2", lambda st, x: box["ni"].statistics(st, num_samples=6, burn_in=1, steps=1, initial_state=x)))
+
+    def interlude(rep, st):
+        """what a longer script does between two seeded repetitions - none of it may influence the next one"""
+        if rep == 0:
+            # calls the library (correctly) refuses; the caller catches the error and goes on
+            for bad_call in (lambda: L.unitaries.create_dict(W=[[1.0, 2.0], [3.0]]), lambda: L.unitaries.create_dict(W="not a matrix"),
+                             lambda: st.save(os.path.join(HOME, ".work", "never_written.pt"), {"rbm_am": 1}),
+                             lambda: st.generate_hilbert_space(st.max_size + 1),
+                             lambda: L.callbacks.EarlyStopping(1, 0.1, 1, L.callbacks.MetricEvaluator(1, {"m": lambda s_: 0.0}), "m", criterion="variance"),
+                             lambda: O.SigmaZ() * O.SigmaX(),
+                             lambda: L.ComplexWaveFunction(2, gpu=False).fit(DATA, epochs=1)):
+                try:
+                    bad_call()
+                except Exception:  # noqa: BLE001
+                    pass
+        else:
+            # the same observable OBJECTS evaluated on other models (shorter and longer chains)
+            for n_ in (2, 4):
+                other = L.PositiveWaveFunction(n_, 2, gpu=False)
+                sp_ = other.generate_hilbert_space()
+                box["ni"].apply(other, sp_)
+                O.SigmaX().apply(other, sp_)
+
+    dd0 = torch.get_default_dtype()
     for name, f in entries:
         case = dict(kind=kind, layer="repeat-on-same-inputs", entry=name)
         acc.ev(1, nontrivial=True)
+        box["ni"] = O.NeighbourInteraction(periodic_bcs=True, c=2)
         try:
             L.qucumber.set_random_seed(3, cpu=True, gpu=False, quiet=True)
-            st = L.types[kind](2, gpu=False)
-            x = DATA.clone()
+            st = L.types[kind](3 if name.startswith("Neighbour") else 2, 2, gpu=False) if kind != "mixed" else L.types[kind](3 if name.startswith("Neighbour") else 2, 2, 2, gpu=False)
+            x = (torch.tensor([[0.0, 1.0, 1.0], [1.0, 1.0, 0.0], [1.0, 0.0, 0.0]], dtype=torch.double) if name.startswith("Neighbour") else DATA).clone()
+            x0 = x.clone()
             res = []
             for rep in range(3):
+                if rep:
+                    g_ = torch.get_rng_state()
+                    interlude(rep - 1, st)
+                    torch.set_rng_state(g_)
+                    if torch.get_default_dtype() != dd0:
+                        acc.viol("repro:process-wide-default-dtype-changed-by-a-library-call", case, observed=str(torch.get_default_dtype()), expected=str(dd0))
+                        torch.set_default_dtype(dd0)
+                        break
                 L.qucumber.set_random_seed(11, cpu=True, gpu=False, quiet=True)
                 if f is None:
                     ev = L.callbacks.ObservableEvaluator(1, [O.SigmaZ()], num_samples=6, burn_in=1, steps=1, initial_state=x)
@@ -111,8 +148,8 @@ def run_repeat(acc, kind):
                 else:
                     res.append(Hx(call(f, st, x)))
                 acc.transitions += 1
-            if not torch.equal(x, DATA):
-                acc.viol("repro:caller-owned-start-state-modified:" + name, case, observed=x.tolist(), expected=DATA.tolist())
+            if not torch.equal(x, x0):
+                acc.viol("repro:caller-owned-start-state-modified:" + name, case, observed=x.tolist(), expected=x0.tolist())
             elif len(set(res)) != 1:
                 acc.viol("repro:same-seeded-call-repeated-on-the-same-inputs-differs:" + name, case, observed=[str(r) for r in res])
             else:
